@@ -42,12 +42,12 @@ LEVEL_NOTE = ('Trusted: Lean kernel (axioms propext, Classical.choice, Quot.soun
 TECHNIQUE = 'Lean 4 proof (fold invariants, strict-total-order lifting through Python list comparison, stable insertion sort) + differential correspondence'
 TRUSTED = ['collator (pyuca.Collator / str.lower fallback) and the unidecode *library* are parameters: their values on the generated keys are sent to the model (the name `unidecode` inside Index.py is code under test); the heading oracle additionally uses unicodedata NFKD base letters, independent of unidecode',
            'Jinja2 and the HTML5 renderer machinery: the index template walk is modelled (renderIndex/htmlLines) and tied by the html18 stream; key markup/mathematics is compared as an opaque marker',
-           'expansion of key tokens (tex.expandTokens, textContent, source) is measured on the live code and sent to the model',
+           'expansion of key tokens (tex.expandTokens, textContent, source) is measured on the live code and sent to the model only for keys with macros, quoting or mark-up; a plain-text key (also one typed with combining characters) denotes its own characters, predicted from the property text, so the input path (tokenizer, expansion) is under test for those',
            'sorted() is modelled as a stable insertion sort (equal to any stable sort because the comparison is proved a strict total order on keys)']
 ASSUMPTIONS = ['key nodes are equal (==) exactly when their (textContent, source) are equal - holds for the generated keys, checked by correspondence',
                'index-columns >= 1 (0 raises ZeroDivisionError in the code and in the model)',
                'unquoted ! @ | inside the |format part (e.g. |see{a!b}) are outside the property grammar: the code treats them as separators (see report)']
-RULE = ('entry lists drawn from a pool of mixed-case / accented / numeric / symbol-initial keys (1-3 levels, sort@display, |see/|textbf, quoted '
+RULE = ('entry lists drawn from a pool of mixed-case / accented (precomposed and combining-character spellings) / numeric / symbol-initial keys, look-alike families (same sort key with displays that are prefixes of one another, NFC/NFD twins) (1-3 levels, sort@display, |see/|textbf, quoted '
         'specials) with forced repeats and case variants; non-trivial = the index has at least 2 lines and at least one merge (a line with >=2 pages) '
         'or a sub-level, resp. a parsed entry with at least one of ! @ | "; distinct = distinct driver request line')
 EXHAUSTIVE = {}
@@ -159,9 +159,36 @@ def base_letter(sk):
 _measured = {}
 
 
+PLAIN_FORBIDDEN = set('\\{}$"~^_#&%|!<>`\'\n\t')
+
+
+def predicted(level):
+    """what a *plain-text* level `text` or `sort@text` names, from the property text alone: the sort key and the key are
+    the very characters typed (no macro, no quoting, no mark-up, single inner blanks).  None when the level is not plain
+    (then the expansion is a parameter measured on the live code).  This keeps the oracle independent of anything the
+    input path (tokenizer, expansion) may do to the characters, e.g. rewriting combining accents."""
+    if not level or any(c in PLAIN_FORBIDDEN for c in level) or level != level.strip() or '  ' in level:
+        return None
+    parts = level.split('@')
+    if len(parts) > 2 or any(q != q.strip() or not q for q in parts):
+        return None
+    sk, disp = (parts[0], parts[-1])
+    return sk, disp, disp
+
+
 def measure(level):
-    """the live expansion of one level `sort@display`: (sortkey string, key textContent, key source, key tokens)"""
+    """one level `sort@display`: (sortkey string, key textContent, key source, key tokens); strings are `predicted` for
+    plain-text levels and the live expansion otherwise; the tokens are always the live ones"""
     if level not in _measured:
+        _measure_live(level)
+        pr = predicted(level)
+        if pr is not None:
+            _measured[level] = pr + (_measured[level][3],)
+    return _measured[level]
+
+
+def _measure_live(level):
+    if True:
         # robust against a changed parser: never raise here, a wrong expansion shows up as a disagreement
         try:
             calls = []
@@ -190,19 +217,45 @@ POOL = ['apple', 'Apple', 'APPLE', 'apple pie', 'banana', 'Banana', 'eclair', 'E
         'zebra', 'Zebra', 'zeta', '1st', '42', '4', '007', '-dash', '+plus', '.dot', '*star', '\\_under', '\\_Under', 'Über', 'uber', 'Uber',
         'ñandú', 'nandu', 'alpha', 'Alpha', 'alpha@$\\alpha$', 'alpha@\\textbf{alpha}', 'Alpha@alpha', 'beta@\\emph{Beta}', 'b', 'B', 'a', 'A',
         'a"!b', 'a"@b', 'x"|y', 'q""uote', 'm', 'M', 'mu@$\\mu$', 'naïve', 'Naive', 'naive', 'z', 'Z', 'ä', 'Ä', 'ae', 'ß', 'ss', 'Ωmega',
-        'item', 'Item', 'sub', 'Sub', 'subsub', 'sort', '10', '2', '(paren)', '=eq', '\\#hash', 'ça', 'ca', 'Ca', 'cb']
+        'item', 'Item', 'sub', 'Sub', 'subsub', 'sort', '10', '2', '(paren)', '=eq', '\\#hash', 'ça', 'ca', 'Ca', 'cb',
+        # same sort key, displays that are prefixes of one another (token-wise and node-wise)
+        'gnu', 'gnu@GNU', 'gnu@GNUs', 'gnu@GN', 'make@Make', 'make@Makefile', 'alpha@alphabet', 'alpha@\\textbf{alpha}s',
+        'mu@$\\mu$m', 'apple@apple pie',
+        # accented keys typed with combining characters (NFD): different keys from their precomposed look-alikes
+        'e\u0301clair', 'E\u0301cole', 'nai\u0308ve', 'u\u0308ber', 'n\u0303andu\u0301', 'ezra', 'fig', 'nail']
+FAMILIES = [['apple', 'Apple', 'APPLE'], ['a', 'A', 'ä', 'Ä'], ['eclair', 'Eclair', '\\\'eclair', 'éclair'],
+            ['alpha', 'Alpha', 'alpha@$\\alpha$', 'Alpha@alpha', 'alpha@\\textbf{alpha}'], ['sub', 'Sub', 'subsub', 'ss', 'ß'],
+            ['gnu', 'gnu@GNU', 'gnu@GNUs', 'gnu@GN'], ['make@Make', 'make@Makefile', 'alpha', 'alpha@alphabet'],
+            ['alpha@\\textbf{alpha}', 'alpha@\\textbf{alpha}s', 'mu@$\\mu$', 'mu@$\\mu$m'],
+            ['éclair', 'e\u0301clair', 'eclair', 'ezra', 'fig'], ['naïve', 'nai\u0308ve', 'nail', 'naive'],
+            ['Über', 'u\u0308ber', 'uber', 'École', 'E\u0301cole']]
+
+
+def variants(rng, level):
+    """derived look-alikes of a level that name *different* keys: a display extended by one letter under the same sort
+    key (prefix sibling), and the canonically decomposed (combining characters) spelling of an accented plain key"""
+    import unicodedata
+    out = []
+    if predicted(level) is not None or '@' in level:
+        out.append(level + 's' if '@' in level else '%s@%ss' % (level, level))
+    nfd = unicodedata.normalize('NFD', level)
+    if nfd != level and predicted(level) is not None:
+        out.append(nfd)
+    return out
 FORMATS = ['', '', '', '', '', '|see{other}', '|seealso{apple}', '|textbf', '|emph', '|textit', '|see{a b}', '|(', '|)', '|(textbf']
 
 
 def gen_entries(rng, n):
     """n entries: (levels list, format) with forced repeats / case variants / shared prefixes"""
     k = rng.randint(2, max(2, min(len(POOL), 3 + n // 2)))
-    if rng.random() < 0.3:
-        base = rng.choice([['apple', 'Apple', 'APPLE'], ['a', 'A', 'ä', 'Ä'], ['eclair', 'Eclair', '\\\'eclair', 'éclair'],
-                           ['alpha', 'Alpha', 'alpha@$\\alpha$', 'Alpha@alpha', 'alpha@\\textbf{alpha}'], ['sub', 'Sub', 'subsub', 'ss', 'ß']])
+    if rng.random() < 0.4:
+        base = rng.choice(FAMILIES)
         pool = base + [rng.choice(POOL) for _ in range(max(0, k - len(base)))]
     else:
         pool = [rng.choice(POOL) for _ in range(k)]
+    for lv in list(pool):
+        if rng.random() < 0.25:
+            pool.extend(variants(rng, lv))
     es = []
     for _ in range(n):
         r = rng.random()
